@@ -1,7 +1,7 @@
 """C13 - editing a model invalidates everything derived from the old model.
 
 Small-scope exhaustive histories: ALL operation sequences up to a length bound
-over an alphabet of 18 operations chosen to cross every cache boundary
+over an alphabet of 19 operations chosen to cross every cache boundary
 (LP objective <-> quadratic objective, flip sense, add linear / nonlinear
 constraint, add a list of constraints introducing a new variable, tighten /
 change a bound, solve with auto / SLSQP / trust-constr / linprog / BFGS (a method that ignores bounds), read
@@ -81,7 +81,7 @@ BASES = {
         "bvar": "x[0]",
     },
 }
-OPS = ["min-lin", "min-quad", "max", "max-lin", "flip-same-object", "add-lin", "add-list", "add-nl", "add-mixed-list", "add-list-with-invalid-entry", "tighten", "rebound", "solve-auto", "solve-SLSQP",
+OPS = ["min-lin", "min-quad", "min-small", "max", "max-lin", "flip-same-object", "add-lin", "add-list", "add-nl", "add-mixed-list", "add-list-with-invalid-entry", "tighten", "rebound", "solve-auto", "solve-SLSQP",
        "solve-trust-constr", "solve-linprog", "solve-BFGS", "read"]
 OBS = {"solve-auto", "solve-SLSQP", "solve-trust-constr", "solve-linprog", "solve-BFGS", "read"}
 
@@ -119,8 +119,14 @@ class Model:
 def apply(op, M, P, b):
     """Apply op to both the reference model M and the real problem P."""
     base = M.base
-    if op in ("min-lin", "min-quad", "max", "max-lin"):
-        node = base[{"min-lin": "lin", "min-quad": "quad", "max": "max", "max-lin": "lin"}[op]]
+    if op in ("min-lin", "min-quad", "max", "max-lin", "min-small"):
+        if op == "min-small":
+            # an objective over a strict subset of the variables the earlier objectives used (the others are no longer mentioned
+            # unless a constraint still does)
+            first = base["decls"][0]
+            v0 = ["var", first["name"]] if first["k"] == "var" else ["el", ["vec", first["name"]], 0]
+            base = dict(base, small=add(sq(["bin", "-", v0, ["raw", 0.75, "float"]]), ["raw", 0.5, "float"]))
+        node = base[{"min-lin": "lin", "min-quad": "quad", "max": "max", "max-lin": "lin", "min-small": "small"}[op]]
         M.objective, M.sense = node, ("max" if op.startswith("max") else "min")
         e = b.S(node)
         (P.maximize if op.startswith("max") else P.minimize)(e)
@@ -318,7 +324,7 @@ def run(ctx, rec):
         edits = [o for o in OPS if o not in OBS]
         solves = [o for o in OPS if o.startswith("solve")]
         for base in BASES:
-            for obj in ("min-lin", "min-quad", "max", "max-lin"):
+            for obj in ("min-lin", "min-quad", "max", "max-lin", "min-small"):
                 for pre in (None, "add-lin", "add-nl"):
                     for m1 in solves:
                         for ed in edits:
